@@ -282,6 +282,10 @@ inductive Op
   | drop (h : Nat)                       -- `Drop::drop`
   | intoOwnedUnwind (h : Nat) (fc : Nat) -- `Cow::into_owned` while the element type's `Clone` panics (caught by the caller)
   | cloneUnwind (h : Nat)                -- `Clone::clone` while the element type's `Clone` panics (caught by the caller)
+  | cloneFrom (hd hs : Nat)              -- `Clone::clone_from` — std's provided method, `impl Clone for Cow` defines only `clone`
+  | cloneFromUnwind (hd hs : Nat)        -- `Clone::clone_from` while the element type's `Clone` panics (caught by the caller)
+  | readUnwind (h1 h2 : Nat)             -- a comparison / hash (`eq ne lt le gt ge partial_cmp cmp hash hash_slice`, all of them
+                                         -- two `deref`s) while the element type's `PartialEq`/`PartialOrd`/`Ord`/`Hash` panics
   deriving DecidableEq, Repr
 
 inductive Ans
@@ -350,6 +354,52 @@ def stepCloneUnwind (s : St) (h : Nat) : Except Err (St × Ans) :=
     | .ok true => .ok (s, .unwound)
     | .ok false => stepClone s h
 
+/-- `Clone::clone_from` as the standard library provides it (`impl Clone for Cow` defines only `clone`, pinned by
+    `src_trait_methods`): `*self = source.clone()` — the clone is made FIRST, then the old value of `*self` is
+    dropped (`Cow::drop`), then the new one is moved in.  The destination variable is rebound: its old handle dies,
+    the fresh handle of the clone is what the variable holds from now on. -/
+def stepCloneFrom (s : St) (hd hs : Nat) : Except Err (St × Ans) :=
+  match getVal s hd with
+  | .error er => .error er
+  | .ok ed =>
+    match stepClone s hs with
+    | .error er => .error er
+    | .ok (s1, a) =>
+      match dropFromParts s1 ed.val with
+      | .error er => .error er
+      | .ok s2 => .ok (killVal s2 hd, a)
+
+/-- `Clone::clone_from` with a panicking element `Clone`: the only user code runs inside `source.clone()`, BEFORE
+    anything of `*self` is touched — the destination keeps its value, its buffer and its elements, no new value
+    exists.  Borrowed / Shared sources run no user code: the call returns normally. -/
+def stepCloneFromUnwind (s : St) (hd hs : Nat) : Except Err (St × Ans) :=
+  match getVal s hd with
+  | .error er => .error er
+  | .ok _ =>
+    match getVal s hs with
+    | .error er => .error er
+    | .ok e =>
+      match cloneFromPartsUnwind s e.val with
+      | .error er => .error er
+      | .ok true => .ok (s, .unwound)
+      | .ok false => stepCloneFrom s hd hs
+
+/-- a comparison or hash of two values whose element operation panics: both values are read through `deref`
+    (shared references), nothing is owned by the call, nothing changes -/
+def stepReadUnwind (s : St) (h1 h2 : Nat) : Except Err (St × Ans) :=
+  match getVal s h1 with
+  | .error er => .error er
+  | .ok e1 =>
+    match getVal s h2 with
+    | .error er => .error er
+    | .ok e2 =>
+      match readPtr s e1.val.ptr e1.val.len with
+      | .error er => .error er
+      | .ok _ =>
+        match readPtr s e2.val.ptr e2.val.len with
+        | .error er => .error er
+        | .ok _ => .ok (s, .unwound)
+
 def step (s : St) : Op → Except Err (St × Ans)
   | .newArc c =>
     if usizeMax ≤ c.length then .error .tooLarge else
@@ -408,6 +458,9 @@ def step (s : St) : Op → Except Err (St × Ans)
     .ok (killVal s1 h, .unit)
   | .intoOwnedUnwind h fc => stepIntoOwnedUnwind s h fc
   | .cloneUnwind h => stepCloneUnwind s h
+  | .cloneFrom hd hs => stepCloneFrom s hd hs
+  | .cloneFromUnwind hd hs => stepCloneFromUnwind s hd hs
+  | .readUnwind h1 h2 => stepReadUnwind s h1 h2
 
 def run (s : St) : List Op → Except Err St
   | [] => .ok s
@@ -441,6 +494,9 @@ def wfOp (s : St) : Op → Bool
   | .drop h => liveHandle s h
   | .intoOwnedUnwind h _ => liveHandle s h
   | .cloneUnwind h => liveHandle s h
+  | .cloneFrom hd hs => liveHandle s hd && liveHandle s hs
+  | .cloneFromUnwind hd hs => liveHandle s hd && liveHandle s hs
+  | .readUnwind h1 h2 => liveHandle s h1 && liveHandle s h2
 
 /-- each op is well-formed in the state in which it executes (nothing is demanded after an error — the
     safety theorem shows there is none) -/
